@@ -5,6 +5,7 @@ import (
 	"encoding/json"
 	"net/http"
 	"net/http/httptest"
+	"time"
 
 	pebbles "github.com/buildbuildio/pebbles"
 	"github.com/buildbuildio/pebbles/planner"
@@ -111,4 +112,17 @@ func DoRaw(g *pebbles.Gateway, contentType string, body []byte) *Response {
 		}
 	}
 	return res
+}
+
+// DoRawTimeout is DoRaw with a deadline: nil when the handler has not returned in time (the
+// goroutine running it is abandoned — the caller should stop using this gateway).
+func DoRawTimeout(g *pebbles.Gateway, contentType string, body []byte, d time.Duration) *Response {
+	ch := make(chan *Response, 1)
+	go func() { ch <- DoRaw(g, contentType, body) }()
+	select {
+	case r := <-ch:
+		return r
+	case <-time.After(d):
+		return nil
+	}
 }
